@@ -14,10 +14,9 @@ re-checks every theorem below that evaluates them.
 "The same instant" is stated on civil fields in a zone; Go's `time.Date` (fields → instant) is applied by the harness
 on both sides (trusted, DESIGN §C20).
 
-The full statement `C20_full` does **not** hold for the code as it is (DESIGN §7 #19): counterexample theorems `cex_…`
-are proved below, and the per-(format, cause) classes are the committed table `known_findings.d/C20.json`. The LQL
-lower-casing cause (F19a) is repaired in /repo (ab30677): `lql_T_literal_is_noon`; so are the `DDDD` expression (F19d,
-65e6bcc: `wednesday_accepted`) and the damaged `MST` literal (F19m, bf37a58: `unixdate_claimed_by_format_2`).
+The full statement `C20_full` (text alone) is a THEOREM on the repaired tree (`C20_full_holds`, from `C20_collector` / `C20_lql` in
+`Props/C20Formats.lean`): the defects that refuted it — LQL lower-casing (F19a), `DDDD` (F19d), the damaged `MST` literal (F19m),
+cross-format shadowing (F19s) — are repaired in /repo (ab30677, 65e6bcc, bf37a58, 6279a73) and pinned by obligations below.
 -/
 namespace Logrange.Props.C20
 open Logrange.Date Logrange.Generated
@@ -205,14 +204,21 @@ example : lpRun lpcfg (LP.init lpcfg) ([[50, 48, 49, 57, 45, 48, 51, 45, 49, 49,
     [.dated 49 ⟨2019, 3, 11, 13, 14, 15, 0, .dflt⟩, .carried (some ⟨2019, 3, 11, 13, 14, 15, 0, .dflt⟩),
      .dated 49 ⟨2019, 3, 11, 13, 21, 16, 0, .dflt⟩] := by decide +kernel
 
-/-! ## The full statement, and why it does not hold -/
+/-! ## The full statement (text alone) -/
 
-/-- the full property on the model for one list: the text of any valid instant in the list's `k`-th format, alone, is
-claimed by that format and gives the fields the format carries -/
-def C20_full (fmts : List CFormat) (parse : Bytes → PRes) : Prop :=
-  ∀ (k : Nat) (cf : CFormat), fmts[k]? = some cf → ∀ (i : Inst), ValidInst i → ∀ txt, formatLayout cf.layout i = some txt →
-    parse txt = .ok k (project cf.layout i)
+/-- **the property on the model, for a text alone**: for every format of either regenerated list and every valid instant,
+the text of the instant in that format is parsed — by the collector's default parser, resp. by `parseLqlDateTime` as an
+absolute literal — to exactly the fields the format carries (UTC without a zone; the current/previous year, today's date
+when it has none) -/
+def C20_full : Prop :=
+  (∀ k, k < colFmts.length → ∀ i, ValidX i → ∀ now, ∃ ck txt c j', colFmts[k]? = some ck ∧ renderLayout ck.layout i = some txt ∧
+      projectX ck.layout i = .ok c ∧ j' ≤ k ∧ parseFirst gadj colFmts now txt = .ok j' (adjAll gadj ck now c)) ∧
+  (∀ k, k < lqlFmts.length → ∀ i, ValidX i → ∀ now, ∃ ck txt c j', lqlFmts[k]? = some ck ∧ renderLayout ck.layout i = some txt ∧
+      projectX ck.layout i = .ok c ∧ j' ≤ k ∧ parseLql gcfg lqlFmts now txt = .abs j' (adjAll gadj ck now c))
 
+/-- **C20, text alone, holds for all 59 + 68 formats and every valid instant.** Tested only (differential sweeps): texts with
+surrounding text (log-line prefix), and that the model is the code. -/
+theorem C20_full_holds : C20_full := ⟨C20_collector, C20_lql⟩
 
 /-- unit and number text of a relative answer -/
 def relHead : LqlRes → Option (UInt8 × Bytes)
@@ -240,13 +246,10 @@ theorem relative_and_constants_case_insensitive :
     relHead (parseLql gcfg lqlFmts now0 [45, 57, 48, 77]) = some (109, [57, 48]) ∧
     parseLql gcfg lqlFmts now0 [87, 69, 69, 75] = .const 3 := by decide +kernel
 
-/-- `2019/01/01` handed to the collector. With the repair F19s (`regexpLeftGuard`): claimed by its own format `YYYY/MM/DD` (33),
-2019-01-01. Without it (the other branch of the fact): the earlier, unanchored `DD/MM/YY` (format 25) claims `19/01/01` out of
-the middle of the year — 2001-01-19. -/
-theorem slash_date_by_branch :
-    (if C20.regexpLeftGuard then decide (parseFirst gadj colFmts now0 [50, 48, 49, 57, 47, 48, 49, 47, 48, 49] = .ok 33 ⟨2019, 1, 1, 0, 0, 0, 0, .dflt⟩)
-     else decide (parseFirst gadj colFmts now0 [50, 48, 49, 57, 47, 48, 49, 47, 48, 49] = .ok 25 ⟨2001, 1, 19, 0, 0, 0, 0, .dflt⟩)) = true := by
-  decide +kernel
+/-- `2019/01/01` handed to the collector is claimed by its own format `YYYY/MM/DD` (33): 2019-01-01 (fixed finding F19s, /repo
+6279a73: before, the earlier unanchored `DD/MM/YY` claimed `19/01/01` out of the middle of the year — 2001-01-19) -/
+theorem slash_date_own_format :
+    parseFirst gadj colFmts now0 [50, 48, 49, 57, 47, 48, 49, 47, 48, 49] = .ok 33 ⟨2019, 1, 1, 0, 0, 0, 0, .dflt⟩ := by decide +kernel
 
 /-- **the UnixDate text `Mon Mar 11 13:14:15 UTC 2019` is claimed by format 2 and gives the year 2019**, in the collector
 list and as an LQL literal (fixed finding F19m, /repo bf37a58: format 2 names its zone with the term `ZZZ`; before, its
@@ -273,24 +276,10 @@ theorem wednesday_accepted :
     parseFirst gadj colFmts now0 [87, 101, 100, 110, 101, 115, 100, 97, 121, 44, 32, 49, 57, 45, 65, 112, 114, 45, 48, 51, 32, 49, 51, 58, 49, 52, 58, 49, 53, 32, 85, 84, 67] = .ok 4 ⟨2019, 4, 3, 13, 14, 15, 0, .utc⟩ ∧
     parseLql gcfg lqlFmts now0 [87, 101, 100, 110, 101, 115, 100, 97, 121, 44, 32, 49, 57, 45, 65, 112, 114, 45, 48, 51, 32, 49, 51, 58, 49, 52, 58, 49, 53, 32, 85, 84, 67] = .abs 4 ⟨2019, 4, 3, 13, 14, 15, 0, .utc⟩ := by decide +kernel
 
-/-- `11/3/2019 12:05 AM` handed to the collector. With the repair F19s the AM/PM format `D/M/YYYY hh:mm P` (now 17) comes before
-the 24-hour formats it extends and claims it: 00:05. Without it the 24-hour `D/M/YYYY HH:mm` (18) claims the prefix: 12:05. -/
-theorem am_text_by_branch :
-    (if C20.regexpLeftGuard then decide (parseFirst gadj colFmts now0 [49, 49, 47, 51, 47, 50, 48, 49, 57, 32, 49, 50, 58, 48, 53, 32, 65, 77]
-          = .ok 17 ⟨2019, 3, 11, 0, 5, 0, 0, .dflt⟩)
-     else decide (parseFirst gadj colFmts now0 [49, 49, 47, 51, 47, 50, 48, 49, 57, 32, 49, 50, 58, 48, 53, 32, 65, 77]
-          = .ok 18 ⟨2019, 3, 11, 12, 5, 0, 0, .dflt⟩)) = true := by decide +kernel
-
-/-- **without the repair the full statement fails** for the collector list (witness: format 33 `YYYY/MM/DD`, 2019-01-01);
-with it this obligation is void and `C20_collector` / `no_shadowing_heads` take its place -/
-theorem not_C20_full_collector (hg : C20.regexpLeftGuard = false) : ¬ C20_full colFmts (parseFirst gadj colFmts now0) := by
-  intro h
-  have hcf : colFmts[33]? = some (compile gterms C20.regexpLeftGuard [89, 89, 89, 89, 47, 77, 77, 47, 68, 68]) := by decide +kernel
-  have := h 33 _ hcf ⟨2019, 1, 1, 0, 0, 0, 0, 2⟩ (by decide) [50, 48, 49, 57, 47, 48, 49, 47, 48, 49] (by decide +kernel)
-  have hb := slash_date_by_branch
-  rw [hg] at hb
-  simp only [Bool.false_eq_true, if_false, decide_eq_true_eq] at hb
-  rw [hb] at this
-  exact absurd this (by decide +kernel)
+/-- `11/3/2019 12:05 AM` handed to the collector is five past midnight: the AM/PM format `D/M/YYYY hh:mm P` (17) comes before the
+24-hour formats it extends (fixed finding F19s: before, `D/M/YYYY HH:mm` claimed the prefix — 12:05) -/
+theorem am_text_is_midnight :
+    parseFirst gadj colFmts now0 [49, 49, 47, 51, 47, 50, 48, 49, 57, 32, 49, 50, 58, 48, 53, 32, 65, 77]
+      = .ok 17 ⟨2019, 3, 11, 0, 5, 0, 0, .dflt⟩ := by decide +kernel
 
 end Logrange.Props.C20
